@@ -419,8 +419,6 @@ def check_graph(rep, rule, run: "Run", D: Blocks):
                 fv = sym.free_ivars(side)
                 if PSet.VAR in fv or fv & loop_ivs:
                     continue
-                if any(y[0] == "at" for y in sym.walk(side)) and fv:
-                    continue
                 if all(y[0] in ("size", "num", "lin", "mul", "iv") for y in sym.walk(side)):
                     continue
                 out.add(side)
@@ -513,4 +511,104 @@ def check_graph(rep, rule, run: "Run", D: Blocks):
                    f"the graph handed to the matching library is {{(r, c): D[r, c] <= d}} cell by cell (rows keyed by position, "
                    f"columns labelled by position): {n_cells} cells compared on sizes up to 3+3 with d at, between and below the "
                    f"matrix's entries")
+    return "ok"
+
+
+# ----------------------------------------------------------------------------- the candidate thresholds
+def check_candidates(rep, rule, run: "Run", D: Blocks):
+    """Every finite entry of the cost matrix is among the candidate thresholds the search probes (the optimum is one of them).
+    The value handed to np.unique / sort is read as a collection of parts (whole matrix, blocks, positional regions, literal
+    lists); on small sizes the set of values they hold is compared with the set of finite cells of the matrix."""
+    import random
+    from ..core.values import Concat, DiagMat as _DM
+    fi = run.fi
+
+    def touches(v, depth=0):
+        if depth > 4 or v is None:
+            return False
+        if isinstance(v, Blocks):
+            return v.uid == D.uid
+        if isinstance(v, Bag):
+            if v.src == D.uid:
+                return True
+            return any(touches(p, depth + 1) for p in (v.parts or []))
+        if isinstance(v, Arr):
+            return v.uid == D.uid or any(x[0] == "at" and x[1] == D.uid for x in sym.walk(v.elem)) \
+                or any(isinstance(s["val"], Arr) and s["val"].uid == v.uid and v.uid is not None for s in D.stores)
+        if isinstance(v, _DM):
+            return any(s["val"] is v or getattr(s["val"], "uid", None) == v.uid for s in D.stores)
+        if isinstance(v, (Seq, Concat)):
+            return any(touches(p, depth + 1) for p in (v.items if isinstance(v, Seq) else v.parts))
+        return False
+    cands = [ev for ev in run.log if ev["kind"] in ("unique", "sort") and touches(ev.get("arg"))]
+    if not cands:
+        rep.unmodelled(rule, fi, fi.node, "the candidate thresholds are not obtained by np.unique / sort of something built from "
+                                          "the cost matrix")
+        return "unmodelled"
+    ev = cands[0]
+    src = ev["arg"]
+
+    def parts_of(v, out):
+        if isinstance(v, Bag) and v.parts:
+            for p in v.parts:
+                parts_of(p, out)
+        elif isinstance(v, Concat):
+            for p in v.parts:
+                parts_of(p, out)
+        else:
+            out.append(v)
+        return out
+    parts = parts_of(src, [])
+    rng = random.Random(31)
+    n_cells = 0
+    for (m, n) in ((1, 1), (1, 2), (2, 1), (1, 3), (3, 1), (2, 3), (3, 2)):
+        pt = symeval.Point(rng, nrows=3, sizes={("rows", run.a): m, ("rows", run.b): n})
+        pt.eval_ranges = True
+        pt.blocks = {D.uid: D}
+        try:
+            cells = {(r, c): symeval.eval_block_entry(D, r, c, pt) for r in range(m + n) for c in range(m + n)}
+            have = set()
+            for p in parts:
+                if isinstance(p, Blocks) and p.uid == D.uid:
+                    have |= set(cells.values())
+                elif isinstance(p, Bag) and p.src == D.uid and not p.parts:
+                    have |= set(cells.values())
+                elif isinstance(p, _DM):
+                    nn = int(round(symeval.ev(p.n, pt)))
+                    for k in range(nn):
+                        pt.ivs[p.iv] = k
+                        have.add(symeval.ev(p.on, pt))
+                    if nn > 1:
+                        have.add(symeval.ev(p.off, pt))
+                elif isinstance(p, Arr):
+                    import itertools as _it
+                    spaces = [(iv, symeval.space_rows(sp.key, pt) if sp.concrete is None else list(range(sp.concrete)))
+                              for sp, iv in p.axes]
+                    for combo in _it.product(*[r_ for _, r_ in spaces]):
+                        for (iv, _), k in zip(spaces, combo):
+                            pt.ivs[iv] = k
+                        have.add(symeval.ev(p.elem, pt))
+                elif isinstance(p, Seq) and all(isinstance(x, Sc) and x.e is not None for x in p.items):
+                    for x in p.items:
+                        have.add(symeval.ev(x.e, pt))
+                elif isinstance(p, Sc) and p.e is not None:
+                    have.add(symeval.ev(p.e, pt))
+                else:
+                    rep.unmodelled(rule, fi, ev["node"], f"a part of the candidate thresholds is not modelled ({type(p).__name__})")
+                    return "unmodelled"
+        except symeval.NotEvaluable as ex:
+            rep.unmodelled(rule, fi, ev["node"], f"cannot evaluate the candidate thresholds ({ex})")
+            return "unmodelled"
+        n_cells += len(cells)
+        for (r, c), v in sorted(cells.items()):
+            if v != v or abs(v) == float("inf"):
+                continue
+            if not any(abs(v - h) <= 1e-12 * (1 + abs(v)) for h in have if h == h and abs(h) != float("inf")):
+                rep.refuted(rule, fi, ev["node"],
+                            f"with {m} and {n} points the cost D[{r}, {c}] = {v:.4g} is not among the candidate thresholds: when it "
+                            f"is the optimal bottleneck cost the search cannot return it",
+                            construct=f"{run.qual}: candidate thresholds", failing_input=f"sizes ({m}, {n}), cell ({r}, {c})")
+                return "refuted"
+    rep.discharged(rule, fi, ev["node"], f"every finite entry of the cost matrix is among the candidate thresholds "
+                                         f"({n_cells} cells on sizes up to 3+2)")
     return "ok"
